@@ -10,6 +10,7 @@ pub const CS: usize = 65536;
 pub struct Plain { pub len: usize, pub seed: u64 }
 fn splitmix(mut z: u64) -> u64 { z = z.wrapping_add(0x9E3779B97F4A7C15); z = (z ^ (z >> 30)).wrapping_mul(0xBF58476D1CE4E5B9); z = (z ^ (z >> 27)).wrapping_mul(0x94D049BB133111EB); z ^ (z >> 31) }
 pub fn fill_at(seed: u64, off: u64, out: &mut [u8]) {
+    if seed == 0 { out.fill(0); return; } // seed 0 stands for all-zero content
     let mut i = 0usize;
     while i < out.len() {
         let pos = off + i as u64; let w = splitmix(seed ^ (pos / 8).wrapping_mul(0xD1B54A32D192ED03)).to_le_bytes();
